@@ -287,8 +287,12 @@ def run(c) -> CaseResult:
         res.fail(exc_bucket(f"C08.construct.raises:{cls}", e), f"{type(e).__name__}: {e}")
         return res
     params = list(m.parameters())
-    fl = [x.clone().requires_grad_() if x.is_floating_point() else x for x in xs]
-    diff = [t for t in fl if t.is_floating_point()] + params
+    # a module fed by data: in a quarter of the cases the inputs do not require a gradient (only the parameters' gradients are compared)
+    rg = c["seed"] % 4 != 0 or not params
+    if not rg:
+        res.labels.append("inputs-without-grad")
+    fl = [x.clone().requires_grad_(rg) if x.is_floating_point() else x for x in xs]
+    diff = [t for t in fl if t.is_floating_point() and t.requires_grad] + params
     try:
         torch.manual_seed(c["seed"])
         y1 = m(*fl)
@@ -368,7 +372,7 @@ def run(c) -> CaseResult:
                     gt = torch.autograd.grad(yt_g, tin + tparams, up, allow_unused=True)
                     names = [n for n, _ in m.named_parameters()]
                     tnames = [n for n, _ in getattr(twin, "module", nn.Module()).named_parameters()]
-                    lib = dict(zip([f"input{i}" for i in range(len(tin))] + names, g1))
+                    lib = dict(zip(([f"input{i}" for i in range(len(tin))] if rg else []) + names, g1))
                     ref = dict(zip([f"input{i}" for i in range(len(tin))] + tnames, gt))
                     for k, a in lib.items():
                         b = ref.get(k)
